@@ -33,8 +33,29 @@ import (
 	"time"
 )
 
-const verifRoot = "/verif"
-const repoRoot = "/repo"
+// verifRoot is the directory that holds bin/verif (…/bin/verif -> …); VERIF_ROOT overrides, /verif is the fallback.
+var verifRoot = func() string {
+	if v := os.Getenv("VERIF_ROOT"); v != "" {
+		return v
+	}
+	if exe, err := os.Executable(); err == nil {
+		if exe, err = filepath.EvalSymlinks(exe); err == nil {
+			root := filepath.Dir(filepath.Dir(exe))
+			if _, err = os.Stat(filepath.Join(root, "worlds")); err == nil {
+				return root
+			}
+		}
+	}
+	return "/verif"
+}()
+
+// repoRoot is the tree under check (VERIF_REPO overrides).
+var repoRoot = func() string {
+	if v := os.Getenv("VERIF_REPO"); v != "" {
+		return v
+	}
+	return "/repo"
+}()
 const goBin = "/opt/veriftools/go1.26.8/bin/go"
 
 type propDef struct {
